@@ -113,7 +113,8 @@ def handle (cmd : String) (j : J) : Except String J :=
     let sfx := (← (← j.get "sfx").toStr).toList
     let mode ← parseMode (← j.get "mode")
     let ops ← (← j.get "ops").toListOf parseOp
-    let cfg : Cfg := { roOpenNoMkdir := ← (← j.get "ro_open").toBool, roWriteNoMkdir := ← (← j.get "ro_write").toBool }
+    let cfg : Cfg := { roOpenNoMkdir := ← (← j.get "ro_open").toBool, roWriteNoMkdir := ← (← j.get "ro_write").toBool,
+                       md5First := ← (← j.get "md5_first").toBool }
     pure (J.arr (runDir cfg (Dir.create mode sfx) ops))
   | "sql" => do
     let mode ← parseMode (← j.get "mode")
